@@ -427,6 +427,36 @@ func c11(r *core.Run) {
 					r.Check(states[in] == lkW, "C11.LOCK", core.FuncName(fn)+"#rmw-read-under-write-lock", in.Pos(), "the lookup a mutation bases its index maintenance on happens with the write lock held", "a mutating method reads the database before taking the writer mutex: another writer can commit between this read and the commit, and the stale-entry cleanup is computed from a superseded record")
 				})
 			}
+			// a batch is one mutation: a method that is handed several signatures must not apply them one by one, each
+			// under its own acquisition of the lock (a concurrent scan would observe a state that was never committed)
+			batchParam := false
+			for _, pa := range fn.Params[1:] {
+				if sl, ok := pa.Type().Underlying().(*types.Slice); ok && core.IsNamed(sl.Elem(), detPath(p), "Signature") {
+					batchParam = true
+				}
+			}
+			if batchParam {
+				core.InstrsOf(fn, func(in ssa.Instruction) {
+					c := core.CallOf(in)
+					if c == nil || core.LoopHeaderOf(in.Block()) == nil {
+						return
+					}
+					g := core.StaticCallee(c)
+					if g == nil || !isMethod[g] || len(c.Args) == 0 || !isRecvBase(c.Args[0]) {
+						return
+					}
+					locksItself := false
+					_, gMu := muOf(g)
+					core.InstrsOf(g, func(in2 ssa.Instruction) {
+						if c2 := core.CallOf(in2); c2 != nil && len(c2.Args) > 0 && gMu(c2.Args[0]) && strings.HasSuffix(core.CalleeName(c2), ".Lock") {
+							locksItself = true
+						}
+					})
+					if locksItself {
+						r.Check(states[in] == lkW, "C11.LOCK", core.FuncName(fn)+"#batch-under-one-lock("+g.Name()+")", in.Pos(), "the elements of a batch are applied under one acquisition of the write lock", "the batch is applied element by element through "+g.Name()+", which takes and releases the write lock each time: a scan running in between sees a half-applied batch, a state that was never committed")
+					}
+				})
+			}
 			// closures of this method that touch guarded fields
 			for _, cl := range core.Nest(fn)[1:] {
 				core.InstrsOf(cl, func(in ssa.Instruction) {
